@@ -50,6 +50,9 @@ func init() {
 	)
 	add("C11",
 		mutant{Name: "datagram digests answered with the full-digest delta", File: glist, Old: "\tdelta := l.state.Delta(digest, false)\n", New: "\tdelta := l.state.Delta(digest, true)\n", Rule: "C11.R11"},
+		mutant{Name: "Delta reads its flag the wrong way round", File: gstate, Old: "\tif fullDigest {\n\t\tfor id := range s.nodes {", New: "\tif !fullDigest {\n\t\tfor id := range s.nodes {", Rule: "C11.R12"},
+		mutant{Name: "Delta pushes unnamed nodes unconditionally", File: gstate, Old: "\tif fullDigest {\n\t\tfor id := range s.nodes {", New: "\tif fullDigest || len(digest) > 0 {\n\t\tfor id := range s.nodes {", Rule: "C11.R12"},
+		mutant{Name: "benign: flag tested by early return", Benign: true, File: gstate, Old: "\tif fullDigest {\n\t\tfor id := range s.nodes {", New: "\tif !fullDigest {\n\t\treturn delta\n\t}\n\t{\n\t\tfor id := range s.nodes {"},
 	)
 	add("C12",
 		mutant{Name: "idle windows swept on report", File: gfd, Old: "\twindow, ok := d.windows[nodeID]\n\tif !ok {\n\t\twindow = newArrivalWindow(d.bootstrapInterval, d.sampleSize)\n\t\td.windows[nodeID] = window\n\t}\n\twindow.Add(timestamp)", New: "\tfor id, w := range d.windows {\n\t\tif id != nodeID && timestamp.Sub(w.lastTimestamp) > d.bootstrapInterval*time.Duration(d.sampleSize) {\n\t\t\tdelete(d.windows, id)\n\t\t}\n\t}\n\twindow, ok := d.windows[nodeID]\n\tif !ok {\n\t\twindow = newArrivalWindow(d.bootstrapInterval, d.sampleSize)\n\t\td.windows[nodeID] = window\n\t}\n\twindow.Add(timestamp)", Rule: "C12.R5"},
